@@ -23,6 +23,7 @@ func init() {
 	chk.Register(&chk.Check{ID: "C06", Level: "model_checking", Run: runC06})
 	chk.RegisterWorker("c06", workC06)
 	chk.RegisterWorker("c06pairs", workC06Pairs)
+	chk.RegisterWorker("c06bytes", workC06Bytes)
 }
 
 type c06Params struct {
@@ -263,6 +264,53 @@ func workC06(w *run.W) {
 	}
 }
 
+// workC06Bytes: the caller's bytes. Every hand-written project, in LF / CRLF / CR form, is built twice from one
+// caller-owned []byte: the slice must be unchanged afterwards and the second build must give the first one's result.
+func workC06Bytes(w *run.W) {
+	var idx int64
+	obs := func(b *impl.Built) string {
+		switch {
+		case b.Panic != nil:
+			return "PANIC " + b.Panic.Value
+		case b.Err != nil:
+			return "ERR " + b.Err.Tuple()
+		}
+		return "JSON " + impl.ToJson(&b.J).String()
+	}
+	var texts []struct{ name, text string }
+	for _, p := range c06Projects {
+		texts = append(texts, struct{ name, text string }{p.Name, p.Text})
+	}
+	for _, p := range c16Projects {
+		texts = append(texts, struct{ name, text string }{p.Name, p.Text})
+	}
+	texts = append(texts, struct{ name, text string }{"descriptions", "JSIGHT 0.3\nINFO\n  Title \"T\"\n  Description\n    line one\n    line two\n\n    line four\nTAG @t\n  Description\n  (\n    in parentheses\n    second\n  )\nGET /a\n  Description\n    of the method\n  200 any\n"})
+	for _, t := range texts {
+		for ei, eol := range []string{"\n", "\r\n", "\r"} {
+			idx++
+			if !w.Mine(idx) || !w.Begin(fmt.Sprintf("bytes/%s/eol%d", t.name, ei)) {
+				continue
+			}
+			txt := strings.ReplaceAll(t.text, "\n", eol)
+			buf := []byte(txt)
+			first := obs(impl.BuildBytes("root.jst", buf))
+			w.Count("byte_slice_builds", 2)
+			if string(buf) != txt {
+				w.Violation("C06", "caller-bytes-modified", fmt.Sprintf("project %s (line ending %q): building modified the caller's byte slice: %s", t.name, eol, firstDiff(string(buf), txt)), map[string]any{"project": t.name})
+			}
+			second := obs(impl.BuildBytes("root.jst", buf))
+			if second != first {
+				w.Violation("C06", "second-build-from-same-bytes-differs", fmt.Sprintf("project %s (line ending %q): the second build from the same byte slice differs: %s", t.name, eol, firstDiff(second, first)), map[string]any{"project": t.name})
+			}
+			fresh := obs(impl.BuildMem("root.jst", txt))
+			if fresh != first {
+				w.Violation("C06", "bytes-vs-string-build-differs", fmt.Sprintf("project %s: building from bytes and from a string differ: %s", t.name, firstDiff(first, fresh)), map[string]any{"project": t.name})
+			}
+			w.End()
+		}
+	}
+}
+
 // workC06Pairs: prior-build interference — every ordered pair (A then B) of a project set in one process.
 func workC06Pairs(w *run.W) {
 	var set []c06Proj
@@ -349,6 +397,8 @@ func runC06(c *chk.Ctx) {
 	c.Cov["projects_compared_across_processes"] = two
 	r2 := pool.Run("c06pairs", p)
 	c.Merge(r2, "pairs")
+	r3 := pool.Run("c06bytes", p)
+	c.Merge(r3, "byte_slice_builds")
 	cnt := c.Counts()
 	c.Cov["states"] = cnt["choice_points"]
 	c.Cov["transitions"] = cnt["executions"]
@@ -364,5 +414,5 @@ func runC06(c *chk.Ctx) {
 	if cnt["projects_capped"] > 0 {
 		c.Incomplete = append(c.Incomplete, fmt.Sprintf("%d project(s) reached the per-project execution cap %d", cnt["projects_capped"], p.MaxExec))
 	}
-	c.Cov["rule"] = "every `for range <map>` of jsight-api-core and jsight-schema-core is rewritten (type-directed, by a build overlay generated from the current tree) to ask the explorer for its order; for every project (hand-written competing-candidate projects, every corpus file, every generated model within the budget) all executions with at most `bound` non-canonical orders are run (all permutations for maps of <= 4 keys, rotations and reversal beyond) and must yield the identical catalog+OpenAPI bytes or the identical error tuple; each diverging execution is replayed twice. In addition: each project twice in one process, once in a second process, and every ordered pair of the hand-written set in one process."
+	c.Cov["rule"] = "every `for range <map>` of jsight-api-core and jsight-schema-core is rewritten (type-directed, by a build overlay generated from the current tree) to ask the explorer for its order; for every project (hand-written competing-candidate projects, every corpus file, every generated model within the budget) all executions with at most `bound` non-canonical orders are run (all permutations for maps of <= 4 keys, rotations and reversal beyond) and must yield the identical catalog+OpenAPI bytes or the identical error tuple; each diverging execution is replayed twice. In addition: each project twice in one process, once in a second process, every ordered pair of the hand-written set in one process, and each hand-written project (LF, CRLF, CR) twice from one caller-owned byte slice, which must stay unchanged."
 }
